@@ -28,7 +28,15 @@ func enumRoots() []RootD {
 		structRoot("ptr", map[string]VD{"x": vStr("rx")}),
 		structRoot("struct", map[string]VD{"Plain": vStr("mP"), "x": vStr("rx")}),
 		{Kind: "nilptr", Map: map[string]VD{"x": vStr("rx")}},
+		rowRoot("row", "a"),
+		rowRoot("prow", "c"),
 	}
+}
+
+// rowRoot: root data of one of the same-named Row types.
+func rowRoot(kind, variant string) RootD {
+	r := vRow(variant, 7, "root-title-"+variant, "root-note-"+variant)
+	return RootD{Kind: kind, Row: &r, Map: map[string]VD{"x": vStr("rx")}}
 }
 
 // alphabet is the op alphabet of the exhaustive family; values carry the position so that a
@@ -108,7 +116,7 @@ func zoo() []VD {
 		VD{K: "nilptr", S: "slice"},
 		VD{K: "nilptr", S: "map"},
 	)
-	return []VD{a, b, intKeyZoo(), zooNode("top", true), vList("ptr", zooNode("ptop", true)), vStr("just a string"), vList("arr2", vList("slice", vInt(1)), zooNode("ia", false))}
+	return []VD{a, b, intKeyZoo(), rowZoo(), zooNode("top", true), vList("ptr", zooNode("ptop", true)), vStr("just a string"), vList("arr2", vList("slice", vInt(1)), zooNode("ia", false))}
 }
 
 // exoticZoo holds keys only the quoted bracket form can spell (region of finding kfQuoted).
@@ -387,7 +395,7 @@ func (g genCtx) val(t *rapid.T, depth int) VD {
 		}
 		return l
 	}
-	switch rapid.IntRange(0, 26).Draw(t, "kind") {
+	switch rapid.IntRange(0, 29).Draw(t, "kind") {
 	case 0, 1:
 		return g.val(t, 0)
 	case 2, 3, 4:
@@ -420,6 +428,8 @@ func (g genCtx) val(t *rapid.T, depth int) VD {
 		return VD{K: "mapsi", M: m}
 	case 24, 25, 26:
 		return genIntMap(t)
+	case 27, 28, 29:
+		return vRow(rapid.SampledFrom([]string{"a", "b", "c"}).Draw(t, "rowv"), rapid.IntRange(0, 9).Draw(t, "rid"), rapid.SampledFrom([]string{"", "t1", "t2"}).Draw(t, "rtitle"), "n")
 	case 16:
 		m := map[string]VD{}
 		for i, n := 0, rapid.IntRange(0, 3).Draw(t, "n"); i < n; i++ {
@@ -588,7 +598,11 @@ func genSeq(t *rapid.T, rec *ev.Rec, known *kf.File) SeqCase {
 		return m
 	}
 	var root RootD
-	switch rapid.IntRange(0, 5).Draw(t, "root") {
+	switch rapid.IntRange(0, 7).Draw(t, "root") {
+	case 6:
+		root = rowRoot("row", rapid.SampledFrom([]string{"a", "b", "c"}).Draw(t, "rowv"))
+	case 7:
+		root = rowRoot("prow", rapid.SampledFrom([]string{"a", "b", "c"}).Draw(t, "rowv"))
 	case 0:
 		root = RootD{Kind: "nil"}
 	case 1:
